@@ -30,12 +30,12 @@ func vhPick(c int, m0, m1 []byte, sym bool) []byte {
 // verdicts must agree after every operation.
 func VH_C11_seq(l int, ops int, capacity int, ed int) {
 	n := 4
-	w := vhNewWorld(1, n, ed == 1, 0)
+	w := VNewWorld(1, n, ed == 1, 0, vsymbolic())
 	var plain, inner crypto.Base
-	if w.ed {
-		plain, inner = crypto.NewEDDSA(w.cfg), crypto.NewEDDSA(w.cfg)
+	if w.Ed {
+		plain, inner = crypto.NewEDDSA(w.Cfg), crypto.NewEDDSA(w.Cfg)
 	} else {
-		plain, inner = crypto.NewECDSA(w.cfg), crypto.NewECDSA(w.cfg)
+		plain, inner = crypto.NewECDSA(w.Cfg), crypto.NewECDSA(w.Cfg)
 	}
 	cached := &Cache{impl: inner, capacity: capacity, entries: make(map[string]*list.Element, capacity)}
 	m0 := []byte{nondetU8("m0"), nondetU8("m0")}
@@ -47,9 +47,9 @@ func VH_C11_seq(l int, ops int, capacity int, ed int) {
 		code /= 3
 		switch op {
 		case 0:
-			es := w.entries(2, 2)
-			sig := w.multi(es, msgs)
-			msg := vhPick(nondetInt("verify-msg")&1, m0, m1, w.sym)
+			es := vhEntries(w, 2, 2)
+			sig := w.Multi(es, msgs)
+			msg := vhPick(nondetInt("verify-msg")&1, m0, m1, w.Sym)
 			e1 := plain.Verify(sig, msg)
 			e2 := cached.Verify(sig, msg)
 			vobserve("verify", vhB(e1 == nil))
@@ -58,11 +58,11 @@ func VH_C11_seq(l int, ops int, capacity int, ed int) {
 			}
 			vassert((e1 == nil) == (e2 == nil), "cache-verify-verdict-equals-uncached")
 		case 1:
-			es := w.entries(2, 2)
-			sig := w.multi(es, msgs)
+			es := vhEntries(w, 2, 2)
+			sig := w.Multi(es, msgs)
 			batch := map[hotstuff.ID][]byte{
-				1: vhPick(nondetInt("batch-msg")&1, m0, m1, w.sym),
-				2: vhPick(nondetInt("batch-msg")&1, m0, m1, w.sym),
+				1: vhPick(nondetInt("batch-msg")&1, m0, m1, w.Sym),
+				2: vhPick(nondetInt("batch-msg")&1, m0, m1, w.Sym),
 			}
 			e1 := plain.BatchVerify(sig, batch)
 			e2 := cached.BatchVerify(sig, batch)
@@ -74,7 +74,7 @@ func VH_C11_seq(l int, ops int, capacity int, ed int) {
 		default:
 			// the replica signs (which primes the cache), then the same bytes come back under a
 			// possibly different signer label and message
-			msg := vhPick(nondetInt("sign-msg")&1, m0, m1, w.sym)
+			msg := vhPick(nondetInt("sign-msg")&1, m0, m1, w.Sym)
 			s, err := cached.Sign(msg)
 			vassert(err == nil, "sign-succeeds")
 			if err != nil {
@@ -82,12 +82,12 @@ func VH_C11_seq(l int, ops int, capacity int, ed int) {
 			}
 			label := hotstuff.ID(nondetU32("relabel"))
 			var back hotstuff.QuorumSignature
-			if w.ed {
+			if w.Ed {
 				back = crypto.NewMulti(crypto.RestoreEDDSASignature(s.ToBytes(), label))
 			} else {
 				back = crypto.NewMulti(crypto.RestoreECDSASignature(s.ToBytes(), label))
 			}
-			msg2 := vhPick(nondetInt("verify-msg")&1, m0, m1, w.sym)
+			msg2 := vhPick(nondetInt("verify-msg")&1, m0, m1, w.Sym)
 			e1 := plain.Verify(back, msg2)
 			e2 := cached.Verify(back, msg2)
 			vobserve("signed", vhB(e1 == nil))
@@ -116,8 +116,8 @@ func vhBatchShape(p int, x []byte) map[hotstuff.ID][]byte {
 // (same bytes split differently, or attributed to another signer).
 func VH_C11_batchkey(p1 int, p2 int, capacity int) {
 	n := 4
-	w := vhNewWorld(1, n, false, 0)
-	plain, inner := crypto.NewECDSA(w.cfg), crypto.NewECDSA(w.cfg)
+	w := VNewWorld(1, n, false, 0, vsymbolic())
+	plain, inner := crypto.NewECDSA(w.Cfg), crypto.NewECDSA(w.Cfg)
 	cached := &Cache{impl: inner, capacity: capacity, entries: make(map[string]*list.Element, capacity)}
 	x := []byte{nondetU8("x"), nondetU8("x"), nondetU8("x")}
 	y := []byte{nondetU8("y"), nondetU8("y"), nondetU8("y")}
@@ -145,7 +145,7 @@ func VH_C11_batchkey(p1 int, p2 int, capacity int) {
 		var sb []byte
 		for i := range all {
 			if which == i {
-				sb = crypto.VSignAs(owner, n, all[i], w.sym, false)
+				sb = crypto.VSignAs(owner, n, all[i], w.Sym, false)
 			}
 		}
 		sigs = append(sigs, crypto.RestoreECDSASignature(sb, claimed))
